@@ -29,7 +29,7 @@ class C15(PropBase):
             ops.append(('get_data_paths', ['', ['s', s], [], 'str']))
             ops.append(('sid_exists', [['s', s]]))
         return ops
-    def history(self, ops, hid):
+    def history(self, ops, hid, extra_reads=()):
         out = [Case('fs_reset', [], 'setup', {'h': hid})]
         for op, args in ops:
             out.append(Case(op, args, 'history', {'h': hid}))
@@ -40,11 +40,15 @@ class C15(PropBase):
             out.append(Case('get_data_paths_new', ['', ['s', s], [], 'str'], 'final', {'h': hid, 'sid': s}))
             out.append(Case('get_data_all', [s, ['a', 'zz'], 'uri'], 'final', {'h': hid, 'sid': s}))
             out.append(Case('sid_exists', [['s', s]], 'final', {'h': hid, 'sid': s}))
+        for s in extra_reads:
+            out.append(Case('get_data_paths_new', ['', ['s', s], [], 'str'], 'final', {'h': hid, 'sid': s}))
         out.append(Case('find_paths', ['', 'hamlet/a/char/x/model/*'], 'final', {'h': hid}))
         out.append(Case('find_paths', ['server', 'hamlet/a/char/x/model/*'], 'final', {'h': hid}))
         out.append(Case('find_all', ['hamlet/a/char/x/**/ma,mb'], 'final', {'h': hid}))
         out.append(Case('find_paths', ['', 'hamlet/a/char/*'], 'final', {'h': hid, 'level': 4}))
         out.append(Case('find_all', ['hamlet/a/*/*'], 'final', {'h': hid, 'level': 4}))
+        out.append(Case('get_paths', ['', 'hamlet/a/char/x/model/v001/w/*', [], 'str'], 'final', {'h': hid, 'records': True}))
+        out.append(Case('find_paths', ['', 'hamlet/a/char/x/model/v001/w/*'], 'final', {'h': hid, 'records_find': True}))
         out.append(Case('children', [['s', dl.ALPHABET['D2']]], 'final', {'h': hid}))
         out.append(Case('children', [['s', dl.ALPHABET['S2']]], 'final', {'h': hid, 'leaf': True}))
         out.append(Case('fs_dump', [], 'dump', {'h': hid}))
@@ -62,6 +66,16 @@ class C15(PropBase):
             for seq in itertools.product(small, repeat=n):
                 hid += 1
                 out.extend(self.history(seq, hid))
+        # every ordered pair of entities that have a path: data written to the first, then to the second (isolation / sharing)
+        withp = [k for k in sorted(dl.ALPHABET) if k not in ('N1', 'U1')]
+        pairs = [(x, y) for x in withp for y in withp if x != y]
+        if tier == 'quick':
+            pairs = rng.sample(pairs, min(len(pairs), 70))
+        for x, y in pairs:
+            hid += 1
+            sx, sy = dl.ALPHABET[x], dl.ALPHABET[y]
+            out.extend(self.history([('w_create', ['', sx, [['a', '1']]]), ('w_create', ['', sy, [['b', '1']]]), ('w_update', ['', sy, [['b', '2'], ['c', 'x y']]]),
+                                     ('get_data_paths_new', ['', ['s', sx], [], 'str'])], hid, extra_reads=[sx, sy]))
         full = self.ops_alphabet([k for k in dl.ALPHABET])
         creates = [o for o in full if o[0] == 'w_create']
         nrand, maxlen = (60, 10) if tier == 'quick' else (1500, 40)
@@ -168,6 +182,12 @@ class C15(PropBase):
                                      and (c.op == 'find_all' or x.startswith('hamlet/a/char/'))))
                     if sorted(o[1]) != exp:
                         fails.append((c, o, '%s(%r) gives %r after creating %r' % (c.op, c.args[-1], sorted(o[1]), sorted(created)))); break
+                elif c.op == 'get_paths' and c.meta.get('records'):
+                    # one record per found Sid, each carrying its own Sid
+                    found = [oo[1] for cc, oo in finals if cc.meta.get('records_find') and oo[0] == 'ok']
+                    sids = [dict((k, v[0] if v else None) for k, v in r).get('sid') for r in o[1]]
+                    if found and sorted(sids) != sorted(found[0]):
+                        fails.append((c, o, 'GetFromPaths.get(%r) carries the Sids %r, FindInPaths.find gives %r' % (c.args[1], sids, found[0]))); break
                 elif c.op == 'sid_exists':
                     s = c.meta['sid']
                     if s in (dl.ALPHABET['N1'],):
